@@ -44,7 +44,7 @@ CLASH_NAMES = [["M1", "M2", "M3", "M4"], ["q_accept1", "q_initial1", "q_drain1",
 
 
 def build(src):
-    P = _build(src)
+    P = U.reorder_delta(_build(src), src)
     if src.get("qnames") is not None:
         pool = CLASH_NAMES[src["qnames"] % len(CLASH_NAMES)]
         Q = sorted(P.Q)
